@@ -559,12 +559,24 @@ fn gen_dt(t: &mut Tape, g: &Gates) -> Lit {
 fn gen_string(t: &mut Tape, g: &Gates) -> Lit {
     let wide = t.ratio(1, 3);
     let q = if wide { '"' } else { '\'' };
-    let n = t.count(0, 12);
+    // now and then a string at and beyond the sizes a length field may have (255/256, 65 535/65 536)
+    let long = t.ratio(1, 40);
+    let n = if long { *t.pick(&[255usize, 256, 257, 1000, 65_535, 65_536, 70_000]) } else { t.count(0, 12) };
     let mut raw: Vec<char> = vec![];
     let mut dec: Vec<char> = vec![];
     let mut escapes = 0;
-    let with_escapes = t.ratio(1, 3) && g.want("STRING_DOLLAR_ESCAPES");
-    for _ in 0..n {
+    let with_escapes = !long && t.ratio(1, 3) && g.want("STRING_DOLLAR_ESCAPES");
+    if long {
+        // a pattern in which every position is recognisable (a dropped or repeated stretch shows)
+        let step = 1 + t.below(7);
+        for i in 0..n {
+            let c = (33 + ((i * step + i / 89) % 90) as u8) as char;
+            let c = if c == q || c == '$' { 'x' } else { c };
+            raw.push(c);
+            dec.push(c);
+        }
+    }
+    for _ in 0..if long { 0 } else { n } {
         if with_escapes && t.ratio(1, 3) {
             // IEC 61131-3 table 5/6: $$ $L $N $P $R $T (either case), $hh (wide: $hhhh), and the
             // escaped delimiter (gated: the lexer ends the token at the first quote)
